@@ -278,6 +278,7 @@ type Sim struct {
 	// making progress: no verdict can be drawn from it.
 	Inconclusive string
 	fairDec      int // decisions taken under the fair continuation
+	fairRng      uint64
 	fairStep0    int // s.step when the fair continuation began
 	progVal      int // last value of progress()
 	progDec      int // fairDec when it last changed
@@ -1250,7 +1251,7 @@ func (s *Sim) pick() int {
 	n := len(el)
 	if s.fair {
 		// fair continuation: round-robin by task id, no clock preemption, not recorded
-		return s.nextRR(el)
+		return s.nextFair(el)
 	}
 	choice := s.Ch.ChooseFunc(n+1, "sched", func(r *Rand) int { return s.strategyPick(r, el) })
 	if choice == n {
@@ -1446,6 +1447,24 @@ func (s *Sim) collect() {
 //
 //go:norace
 func Quiesce() { Point(OpQuiesce, nil) }
+
+// nextFair picks the task for a step of the fair continuation: uniformly at
+// random among the eligible ones, from a generator of its own that is seeded by
+// where the run stood when the continuation began (so the continuation repeats
+// exactly, without lengthening the tape). Random choice is fair with
+// probability one and, unlike strict round-robin, does not lock the tasks into
+// a fixed phase relation: under round-robin a reader that retries while a
+// writer is between two steps (a seqlock, a compare-and-swap loop) can meet the
+// writer at the same point of its cycle for ever, which no real scheduler does.
+//
+//go:norace
+func (s *Sim) nextFair(el []*Task) int {
+	if s.fairRng == 0 {
+		s.fairRng = 0x9e3779b97f4a7c15 ^ uint64(s.step)<<1 | 1
+	}
+	s.fairRng = s.fairRng*6364136223846793005 + 1442695040888963407
+	return int((s.fairRng >> 33) % uint64(len(el)))
+}
 
 // nextRR picks the eligible task with the smallest id above the last one
 // served, wrapping around.
